@@ -233,6 +233,15 @@ def generate(ex: Executor, c: FnContract, mod, fnode):
         if not ex.feasible(st.pc):
             continue
         ex.witness_terms = getattr(ex, "witness_terms", {})
+        for pname, pv in amap.items():
+            if isinstance(pv, (VInt, VStr, VBool, VReal)):
+                ex.witness_terms.setdefault(pname, pv.t)
+            elif isinstance(pv, VBytes):
+                ex.witness_terms.setdefault(pname, [x.t for x in pv.items])
+            elif isinstance(pv, VRef) and st.obj(pv.ref).kind in ("list", "bytearray") and st.obj(pv.ref).data is not None:
+                ex.witness_terms.setdefault(pname, [x.t for x in st.obj(pv.ref).data if hasattr(x, "t")])
+            elif isinstance(pv, VRef) and st.obj(pv.ref).kind == "obj":
+                ex.witness_terms.setdefault(pname, {f: v.t for f, v in st.obj(pv.ref).data.items() if hasattr(v, "t")})
         ex.cur_fn_stack.append(fnode)
         ex.sinks.append([])
         try:
